@@ -411,6 +411,13 @@ def check(ctx):
         h = p.fn(hname)
         ctx.analysed(h)
         calls = [n for n, cfid, nm in h.calls() if nm == POS + '::do_move']
+        if not calls:
+            # the replay may sit in a helper the reference tree did not have
+            for n, cfid, nm in h.calls():
+                g = p.funcs.get(cfid)
+                if g is not None and p.is_new_function(g) and any(nm2 == POS + '::do_move' for _n, _c, nm2 in g.calls()):
+                    raise AnalysisBroken('C02: %s replays its moves in %s, a function the reference tree did not have; the replay rules '
+                                         'read the handler\'s own loop' % (short(hname), short(g.name)))
         ok = bool(calls) and all(strip_casts(kids(c)[1]).get('callee', {}).get('n') == POS + '::parse_uci' for c in calls)
         ctx.ob('C02.R5.replay', short(hname), ok, '`position ... moves`/`moves` replay every token through parse_uci + do_move', site=h.loc())
     _replay_all(ctx, p)
